@@ -105,7 +105,14 @@ def mon_C01(case):
         if post["wu"] < 0:
             yield finding("C01", st, f"total weight {post['wu']} is negative", f"C01/total-negative/after={cause(st)}")
         if post["wu"] > mx and post["wu"] > pre["wu"]:
-            yield finding("C01", st, f"total weight {post['wu']} exceeds the limit {mx}", f"C01/total-exceeds-limit/after={cause(st)}")
+            why = cause(st)
+            if why == "UpdateWeight":
+                # D1 is "the new weight is applied without asking whether it fits": the step must have changed the total by
+                # exactly (new charge - old charge) of ONE key id; anything else after an UpdateWeight is another defect
+                changed = [(i, e["weight"] - pre["kw"][i]["weight"]) for i, e in post["kw"].items() if i in pre["kw"] and e["weight"] != pre["kw"][i]["weight"]]
+                if not (len(changed) == 1 and set(post["kw"]) == set(pre["kw"]) and post["wu"] - pre["wu"] == changed[0][1]):
+                    why = "UpdateWeight/not-the-unchecked-update"
+            yield finding("C01", st, f"total weight {post['wu']} exceeds the limit {mx}", f"C01/total-exceeds-limit/after={why}")
         if st.kind == "weight":
             reported = int(st.out.split()[1])
             if reported < 0 or (reported > mx and post["wu"] <= mx):
@@ -736,15 +743,23 @@ def mon_C17(case):
                     continue    # documented precondition: positive weights
                 t = st.toks
                 if st.kind == "upsert" and t[6] == "1" and t[4] == "-":
-                    yield finding("C17", st, "removing the time-to-live of a light key panics in the caller (existing weight - 24 <= 0) after the store was changed", "C17/caller-panic/site=ttl-removal-weight")
+                    held = pre["store"].get(int(t[2]))
+                    charged = pre["kw"].get(held["id"], {}).get("weight") if held else None
+                    if charged is not None and charged <= cfg.get("ttlentry", 24):
+                        yield finding("C17", st, "removing the time-to-live of a light key panics in the caller (existing weight - 24 <= 0) after the store was changed", "C17/caller-panic/site=ttl-removal-weight")
+                    else:
+                        yield finding("C17", st, f"removing the time-to-live of a key charged {charged} panicked in the caller", "C17/caller-panic/site=ttl-removal-weight/charge-above-24")
                     continue
             if site == "upsert-value-missing":
                 continue        # documented precondition: a well-formed upsert of an absent key carries a value
-            if site == "time-overflow":
+            if site == "time-overflow" and ev_ttl(st.toks) is not None:
                 yield finding("C17", st, "now + time_to_live overflows in the caller", "C17/caller-panic/site=time-overflow")
                 continue
-            if site == "weight-overflow":
+            if site == "weight-overflow" and st.kind == "upsert":
                 yield finding("C17", st, "existing weight + 24 overflows i64 in the caller", "C17/caller-panic/site=weight-overflow")
+                continue
+            if site in ("time-overflow", "weight-overflow"):
+                yield finding("C17", st, f"{site} in the caller of a {st.kind}", f"C17/caller-panic/site={site}/call={st.kind}")
                 continue
             yield finding("C17", st, f"call panicked: {st.out}", f"C17/caller-panic/site={site}")
         if o[0] == "workerpanic":
@@ -1065,16 +1080,27 @@ def mon_B(case, pid):
                     if req[0] == "upsert" and req[2] == "-" and cs["present"].get(cid):
                         yield finding("C17", st, f"put_or_update of key {req[1]} without a value panicked in its caller although the key was present when the call began: it was removed before the call looked it up", "C17/caller-panic/site=value-missing/key-removed-during-call")
                     continue        # otherwise the documented precondition: an upsert of an absent key carries a value
-                if site in ("time-overflow", "weight-overflow"):
-                    yield finding("C17", st, f"{site} in the caller", f"C17/caller-panic/site={site}")
+                if site == "time-overflow" and req[0] in ("putw", "upsert") and len(req) > 4 and req[4] != "-":
+                    yield finding("C17", st, "now + time_to_live overflows in the caller", "C17/caller-panic/site=time-overflow")
+                    continue
+                if site == "weight-overflow" and req[0] == "upsert":
+                    yield finding("C17", st, "existing weight + 24 overflows i64 in the caller", "C17/caller-panic/site=weight-overflow")
                     continue
                 yield finding("C17", st, f"call panicked: {res}", f"C17/caller-panic/site={site}")
             before = cs["prev_pcs"]
             if not snap["shut"]:
                 if before.get("w") not in (None, "finished") and pcs.get("w") == "finished":
-                    site = {"store.put": "time-overflow", "ttl.put": "time-overflow", "kw.update": "weight-overflow"}.get(before.get("w"), before.get("w"))
-                    cmd = {"store.put": "PutWithTTL", "ttl.put": "PutWithTTL", "kw.update": "UpdateWeight"}.get(before.get("w"), "?")
-                    yield finding("C17", st, f"the command worker died at {before.get('w')}", f"C17/worker-died/site={site}/cmd={cmd}")
+                    # the site is named by the worker's position AND by what the panic said (the `# panic` notes of the case; the
+                    # worker thread is unnamed): a death at the same position for another reason is another finding
+                    said = " ".join(n for n in case.notes if n.startswith("# panic") and not re.search(r"thread=c\d", n))
+                    expected = {"store.put": ("time-overflow", "PutWithTTL", "overflow_when_adding_duration"), "ttl.put": ("time-overflow", "PutWithTTL", "overflow_when_adding_duration"),
+                                "kw.update": ("weight-overflow", "UpdateWeight", "with_overflow")}.get(before.get("w"))
+                    if expected and expected[2] in said:
+                        site, cmd = expected[0], expected[1]
+                    else:
+                        where = re.search(r"at=(\S+) msg=(\S{0,60})", said)
+                        site, cmd = f"{before.get('w')}/unclassified:{where.group(1).split('/')[-1] + ':' + where.group(2) if where else 'no-panic-note'}", "?"
+                    yield finding("C17", st, f"the command worker died at {before.get('w')}: {said[:200]}", f"C17/worker-died/site={site}/cmd={cmd}")
                 if before.get("s") not in (None, "finished") and pcs.get("s") == "finished":
                     yield finding("C17", st, f"the sweeper died at {before.get('s')}", "C17/sweeper-died")
                 if snap["consumer"] is False and cs.get("consumer", True):
